@@ -114,3 +114,24 @@ Print Assumptions C07_chunks_sorted.
 Theorem C07_output_sorted : forall c mf ins out, sorter_run c mf ins = Done out -> sorted_strictb (map fst out) = true.
 Proof. exact model_output_sorted. Qed.
 Print Assumptions C07_output_sorted.
+
+(* the same content by writing into a writer: the sorter's output streamed through a writer of any
+   configuration yields a file that opens with that many entries and scans as exactly that output *)
+From Grenad.gen Require Import Consts.
+From Grenad.model Require Import Block Trailer Writer.
+From Grenad.proofs Require Import BlockProofs ReaderRefine WriterStore.
+
+Theorem C07_into_writer : forall c0 mf ins out compress decompress c,
+  sorter_run c0 mf ins = Done out ->
+  (forall b z, compress (wc_codec c) (wc_level c) b = Done z -> decompress (wc_codec c) z = Done b) ->
+  (forall b, exists z, compress (wc_codec c) (wc_level c) b = Done z) ->
+  wc_levels c < 256 -> 1 <= wc_interval c -> wc_codec c <= 5 ->
+  out <> [] -> entries_ok out -> len out + 1 <= U32_MAX ->
+  exists s lg m,
+    w_run_gen vsink vs_wr vs_fl vs_count compress c vs_empty out = (len out, Done (s, lg, m)) /\
+    (len (vs_bytes s) < 2^64 -> mem_ok lg ->
+     open_meta (vs_bytes s) = Done m /\ m_count m = len out /\
+     exists st rs, run_ops (load_block decompress (vs_bytes s) (m_codec m)) (m_root m) (m_levels m) cs_fresh
+                           (repeat ONext (S (length out))) = Done (st, rs) /\ rs = map Some out ++ [None]).
+Proof. exact sorter_into_writer. Qed.
+Print Assumptions C07_into_writer.
